@@ -163,7 +163,7 @@ PLAN = {
     # ... and C07.e is the other end of an incarnation: after the last acknowledged release the name is
     # free, so the next claim starts a new one (also when the release had to be re-sent after a kill)
     "C03": dict(_p(["C03.a", "C03.b", "C03.c", "C03.d", "C07.a", "C07.e"], [("core", 9, 12), ("apps", 8, 11)], ["core", "apps"],
-                   ["nameplate", "apps", "crowd", "script", "script2", "reuse", "crash", "boundaries"], ["P03"]),
+                   ["nameplate", "apps", "crowd", "script", "script2", "reuse", "crash", "boundaries", "idle"], ["P03"]),
                 variants={"crash": [dict(), dict(usage=True)]}),
     "C05": dict(_p(["C05.a", "C05.b", "C05.c", "C05.keep"], [("core", 9, 12)], ["core"],
                    ["crowd", "crowdrestart", "mailbox", "script", "script2", "reuse"], ["P05"]),
@@ -174,7 +174,7 @@ PLAN = {
               pairs=[("iso", 144, 4000)], pairclause="C06.pair"),
     # (C18.a, the content of `list`, is C07's "listed while it lives, gone afterwards")
     "C07": _p(["C07.a", "C07.b", "C07.c", "C07.d", "C07.e", "C18.a"], [("core", 9, 12), ("apps", 8, 11)],
-              ["core", "apps"], ["nameplate", "apps", "crowd", "script", "script2", "reuse", "crash", "boundaries"], ["P07"]),
+              ["core", "apps"], ["nameplate", "apps", "crowd", "script", "script2", "reuse", "crash", "boundaries", "idle"], ["P07"]),
     "C08": _p(["C08.a", "C08.b", "C08.c", "C08.d", "C08.e"], [("core", 9, 12)], ["core"],
               ["mailbox", "nameplate", "script", "script2", "reuse", "idle"], ["P08"]),
     "C04": dict(_p(["C04.a", "C04.b", "C04.c"], [("alloc", 8, 11), ("allocnl", 8, 11)], ["core"],
@@ -193,7 +193,9 @@ PLAN = {
     #  what is kept and what is swept must not depend on it)
     "C12": dict(_p(["C12.a", "C12.b", "C12.c"], [("time", 8, 11), ("time2", 7, 10)], ["time", "time2"],
                    ["time", "fanout", "script", "script2", "reuse", "idle"], ["P12"]),
-                variants={"time": [dict(), dict(usage=True, blur=20)], "idle": [dict(), dict(usage=True, blur=20)]}),
+                # (unit=20: the clock in 20-second ticks, so that commands fall inside a sweep period)
+                variants={"time": [dict(), dict(usage=True, blur=20), dict(unit=20)],
+                          "idle": [dict(), dict(usage=True, blur=20)]}),
     "C13": dict(_p(["C13.a", "C13.b", "C13.c"], [("time", 8, 11), ("time2", 7, 10)], ["time", "time2"],
                    ["time", "crowd", "mailbox", "script", "script2", "reuse", "idle"], ["P13"]),
                 variants={"time": [dict(), dict(usage=True, blur=20)]}),
